@@ -14,6 +14,13 @@ clear), directed line scripts for the known windows, and seeded random schedules
  * oracle (no model): every cached call returns f(x) and does not raise. Exceptions raised BY clear()/reduce_size()
    themselves are not counted (the property is about calls of cached functions).
 Multi-process stress (thorough tier only) is supporting evidence.
+
+Object histories (harness/c11_objects.py, run FIRST, also in the quick tier): the participants are distinct Memory /
+MemorizedFunc OBJECTS on one directory (own store backend object, own in-memory state; several per process and per
+thread, in other threads, in other processes; created before and after the others' clears / evictions), every operation
+runs to completion and ANOTHER object clears / evicts between two operations of this object.  Oracle (no model): every
+call returns f(x) and does not raise — whatever an object remembers in memory (directories it created, call ids it
+knows, function code it validated) must not make a call fail after another object changed the directory.
 """
 
 from __future__ import annotations
@@ -40,6 +47,8 @@ REQUIRED_THEOREMS = [
     "C11.call_correct_under_G_clear_partial",
     "C11.call_under_G_clear_can_raise",
     "C11.caller_leaves_G_calls",
+    "C11.checkPreviousObj_fresh",
+    "C11.object_history_witness",
 ]
 TRUSTED_EXTRA = [
     "modelled, not verified: POSIX semantics of the calls (rename atomicity, unlink of open files, O_TRUNC on an existing "
@@ -404,7 +413,188 @@ def _fork_probe(ctx, res, thorough):
             res.fail("concurrent-writers:forked:" + what, case, out)
 
 
-def _explore(ctx, scale=1):
+OBJECTS = os.path.join(os.path.dirname(os.path.dirname(os.path.abspath(__file__))), "c11_objects.py")
+DISTURB = ("clear", "fclear", "reduce", "iclear")
+# (host of the observed object A, host of the disturbing object B, do A and B share the function object?)
+PLACEMENTS = [("m", "m", False), ("m", "t1", False), ("m", "p1", False), ("m", "m", True), ("p1", "m", False), ("t1", "t2", False),
+              ("p1", "p2", False)]
+
+
+def _history(place, disturb, pre, post, b_before=False, late=False, twice=False):
+    """A is created and calls `pre`; B (another object) disturbs; A calls `post`; optionally an object C created after the
+    disturbance calls too and A calls once more."""
+    ha, hb, shared = place
+    st = [dict(op="new", obj="A", host=ha, func="g0")]
+    newb = dict(op="new", obj="B", host=hb, func="g0" if shared and ha == hb else "g1")
+    if b_before:
+        st.append(newb)
+    st += [dict(op="call", obj="A", a=a) for a in pre]
+    if not b_before:
+        st.append(newb)
+    for d in ([disturb] * 2 if twice else [disturb]):
+        st.append(dict(op=d, obj="B", a=3) if d == "iclear" else dict(op=d, obj="B"))
+    st += [dict(op="call", obj="A", a=a) for a in post]
+    if late:
+        st += [dict(op="new", obj="C", host=hb, func="g2"), dict(op="call", obj="C", a=3), dict(op="call", obj="A", a=3),
+               dict(op="call", obj="B", a=4)]
+    return st
+
+
+def _object_histories(rng, thorough, n_random):
+    hs = []
+    # first: another object clears / evicts between two operations of this object — same thread, other thread, other process
+    for place in PLACEMENTS[:3]:
+        for d in DISTURB:
+            hs.append(_history(place, d, [3, 4], [5, 3, 3]))
+    # the object has only been created (decorated) before the others' clear; objects sharing the function object
+    for place in (PLACEMENTS[0], PLACEMENTS[2]):
+        for d in ("clear", "fclear"):
+            hs.append(_history(place, d, [], [3, 3], b_before=True))
+    for d in ("clear", "fclear"):
+        hs.append(_history(PLACEMENTS[3], d, [3], [3, 4], late=True))
+    for _ in range(n_random):
+        place = rng.choice(PLACEMENTS)
+        pre = [rng.choice([3, 4, 5]) for _ in range(rng.choice([0, 1, 2, 2, 3]))]
+        post = [rng.choice([3, 4, 5]) for _ in range(rng.choice([1, 2, 3]))]
+        hs.append(_history(place, rng.choice(DISTURB), pre, post, b_before=rng.random() < 0.5, late=rng.random() < 0.4,
+                           twice=rng.random() < 0.2))
+    return hs
+
+
+def _run_history(a):
+    """One object history (pool worker)."""
+    (base, ids, steps, tag) = a
+    S.ACTUAL.update(ids["actual"])
+    d = os.path.join(base, f"obj-{tag}")
+    os.makedirs(d, exist_ok=True)
+    real = []
+    for st in steps:
+        q = dict(st)
+        if q["op"] == "iclear":
+            q["args_id"] = ids["ids"][str(q.pop("a"))]
+        elif q["op"] == "call":
+            q["a"] = S._act(q["a"])
+        real.append(q)
+    spec = dict(repo=str(core.REPO), moddir=S._moddir(base, 0), cache=os.path.join(d, "cache"), steps=real)
+    sp = os.path.join(d, "spec.json")
+    with open(sp, "w") as fh:
+        json.dump(spec, fh)
+    rec = dict(steps=steps, tag=tag, res=None, err="")
+    try:
+        p = subprocess.run([fstrace.PY, "-B", OBJECTS, sp], capture_output=True, text=True, timeout=120)
+        rec["err"] = p.stderr[-300:]
+        for ln in p.stdout.splitlines():
+            try:
+                rec["res"] = json.loads(ln)
+            except ValueError:
+                pass
+    except subprocess.TimeoutExpired:
+        rec["err"] = "timeout"
+    shutil.rmtree(d, ignore_errors=True)
+    return rec
+
+
+def _judge_history(res, rec):
+    steps = rec["steps"]
+    case = dict(kind="object-history", history=steps)
+    r = (rec.get("res") or {}).get("results")
+    if r is None or len(r) != len(steps):
+        res.fail("object-history:did-not-finish", case, rec.get("err"))
+        return
+    born = {}
+    for n, (st, got) in enumerate(zip(steps, r)):
+        if st["op"] == "new":
+            born[st["obj"]] = n
+        if st["op"] != "call":
+            continue  # exceptions raised BY clear()/reduce_size() themselves are not C11 violations
+        # what OTHER objects did to the directory since this object exists
+        kinds = {"clear" if s["op"] in ("clear", "fclear") else "evict" for s in steps[born[st["obj"]]:n]
+                 if s["obj"] != st["obj"] and s["op"] in DISTURB}
+        others = "+".join(sorted(kinds)) or "nothing"
+        oc = got["outcome"]
+        want = fstrace.expected(S.SRC[0], S._act(st["a"]))
+        if oc[0] == "raise":
+            frames = got.get("where") or ["?"]
+            where = next((f for f in frames if f.endswith(":store_cached_func_code")), frames[-1])
+            res.fail(f"call-after-other-object-{others}:{oc[1]}@{where}", case, dict(step=n, outcome=oc, where=got.get("where")))
+            return
+        if oc[1] != want:
+            res.fail(f"call-after-other-object-{others}:wrong-value", case, dict(step=n, got=oc[1], want=want))
+            return
+
+
+def _history_request(steps):
+    """The history as a request to the model (Driver/C11.lean `objs`, model JoblibModel.StoreObjects): processes, function
+    objects and objects are numbered; the directory order is irrelevant for outcomes (no operation is interrupted)."""
+    procs, funcs, objs, where, toks = {}, {}, {}, {}, []
+    for st in steps:
+        o = st["obj"]
+        if st["op"] == "new":
+            pr = procs.setdefault("main" if st["host"][0] in "mt" else st["host"], len(procs))
+            where[o] = (pr, funcs.setdefault((pr, st["func"]), len(funcs)))
+            objs[o] = len(objs)
+            toks.append(f"new:p={pr},me={objs[o]}")
+            continue
+        pr, g = where[o]
+        me = objs[o]
+        if st["op"] == "call":
+            toks.append(f"call:p={pr},g={g},me={me},a={st['a']}")
+        elif st["op"] == "fclear":
+            toks.append(f"fclear:p={pr},g={g},me={me}")
+        elif st["op"] == "iclear":
+            toks.append(f"iclear:p={pr},me={me},a={st['a']}")
+        elif st["op"] == "reduce":
+            toks.append(f"reduce:p={pr},me={me},victims=5.4.3")
+        else:
+            toks.append(f"clear:p={pr},me={me}")
+    s0, fl = S._func_source(0)
+    s1, _ = S._func_source(1)
+    return f"objs - {fl} {S._hex(s0)} {S._hex(s1)} | " + " | ".join(toks)
+
+
+def _history_outcomes(rec):
+    out = []
+    for st, got in zip(rec["steps"], rec["res"]["results"]):
+        oc = got["outcome"]
+        if oc[0] == "raise":
+            out.append("raise " + oc[1])
+            break  # the model's history is compared up to the first exception
+        if st["op"] == "call":
+            lab = next((l for l in ("3", "4", "5") if oc[1] == fstrace.expected(S.SRC[0], S._act(int(l)))), "?")
+            out.append(f"ok v0.{lab} exec={got.get('executed')}")
+        else:
+            out.append("ok done")
+    return out
+
+
+def _objects_probe(ctx, res, base, ids, thorough, stop=None):
+    """Distinct objects on one directory, operations run to completion, others clear / evict in between. -> True when an
+    oracle failure was recorded."""
+    hs = _object_histories(ctx.rng("objects"), thorough, 60 if thorough else 4)
+    jobs = [(base, ids, h, f"h{k}") for k, h in enumerate(hs)]
+    before, recs = len(res.oracle_failures), []
+    with cf.ThreadPoolExecutor(max_workers=min(8, os.cpu_count() or 4)) as ex:
+        for rec in ex.map(_run_history, jobs):
+            res.evaluations += 1
+            res.count("object-histories")
+            hosts = tuple(sorted({s["host"] for s in rec["steps"] if s["op"] == "new"}))
+            res.count("object-hosts:" + "+".join(hosts))
+            if any(s["op"] in DISTURB for s in rec["steps"]):
+                res.nontrivial.add(("objects", json.dumps(rec["steps"], sort_keys=True)))
+            _judge_history(res, rec)
+            recs.append(rec)
+    good = [r for r in recs if (r.get("res") or {}).get("results") and len(r["res"]["results"]) == len(r["steps"])]
+    if good:
+        for rec, rep in zip(good, ctx.driver().run([_history_request(r["steps"]) for r in good])):
+            impl = _history_outcomes(rec)
+            model = rep.split(" | ")[:len(impl)] if rep != "bad-op" else [rep]
+            res.traces_validated += 1
+            if impl != model:
+                res.diverge("objects:outcome", dict(kind="object-history", history=rec["steps"]), impl, model)
+    return len(res.oracle_failures) > before
+
+
+def _explore(ctx, scale=1, deadline=None):
     res = Result()
     res.rule = ("one case = (scenario, schedule); schedules: single pre-emption at every tracked line of a participant "
                 "(sampled in the quick tier), directed line scripts, seeded random schedules with <= 3 pre-emptions; "
@@ -417,6 +607,16 @@ def _explore(ctx, scale=1):
     res.extra["arguments"] = ids["actual"]
     thorough = ctx.thorough or scale > 1
     rng = ctx.rng("sched")
+    if ctx.replay and ctx.replay.get("case", {}).get("kind") == "object-history":
+        rec = _run_history((base, ids, ctx.replay["case"]["history"], "replay"))
+        res.evaluations += 1
+        _judge_history(res, rec)
+        return res
+    if not ctx.replay and os.environ.get("VERIF_C11_OBJECTS", "1") != "0":
+        # first thing tried: another OBJECT clears / evicts between two operations of this object
+        found = _objects_probe(ctx, res, base, ids, thorough)
+        if found and deadline is not None and _unlisted(ctx, res):
+            return res
     pre = {name: _prepare_scenario(base, name, ids) for name in SCENARIOS}
     if ctx.replay and ctx.replay.get("case", {}).get("scenario") in SCENARIOS:
         case = ctx.replay["case"]
@@ -487,7 +687,28 @@ def _explore(ctx, scale=1):
             for sd in range(nseeds):
                 jobs.append((base, name, pre[name], ids,
                              dict(mode="prng", seed=ctx.seed * 1000 + sd, max=3, p=0.03), f"prng{sd}", False))
-        out = list(ex.map(_run_schedule, jobs, chunksize=2))
+        if deadline is None:
+            out = list(ex.map(_run_schedule, jobs, chunksize=2))
+        else:
+            # failing-input search: directed scripts and random schedules first, then the sweeps in random order; judged
+            # chunk by chunk; stops at the first failing input that is not a known finding, or when the budget is used up
+            first = [j for j in jobs if j[4]["mode"] != "switch"]
+            sweeps = [j for j in jobs if j[4]["mode"] == "switch"]
+            rng.shuffle(sweeps)
+            jobs, out = first + sweeps, []
+            for k in range(0, len(jobs), 64):
+                chunk = list(ex.map(_run_schedule, jobs[k:k + 64], chunksize=2))
+                out += chunk
+                probe = Result()
+                for rec in chunk:
+                    if rec.get("res") is not None and rec["rc"] == 0:
+                        _judge(probe, rec, rec["name"])
+                if _unlisted(ctx, probe):
+                    res.notes.append(f"failing-input search stopped at the first failing input ({len(out)} of {len(jobs)} schedules run)")
+                    break
+                if time.time() > deadline:
+                    res.notes.append(f"failing-input search stopped by its budget ({len(out)} of {len(jobs)} schedules run)")
+                    break
     reqs, pend = [], []
     for rec in dry_out + out:
         name = rec["name"]
@@ -504,12 +725,16 @@ def _explore(ctx, scale=1):
         res.sample(dict(scenario=name, schedule=rec["schedule"], switches=rec["res"]["switches"],
                         outcomes=[r and r["outcome"][:2] for r in rec["res"]["results"]]))
         _judge(res, rec, name)
+        if deadline is not None:
+            continue  # the search is judged by the oracles only
         rq = _model_request(rec, name, ids)
         if rq is None:
             res.count("order-inconsistent")
             continue
         reqs.append(rq)
         pend.append((rec, name))
+    if deadline is not None and (_unlisted(ctx, res) or time.time() > deadline):
+        return res
     if reqs:
         for (rec, name), rep in zip(pend, ctx.driver().run(reqs)):
             _compare(res, rec, name, rep)
@@ -522,11 +747,22 @@ def _explore(ctx, scale=1):
     return res
 
 
+def _unlisted(ctx, res):
+    """Failing inputs of `res` that are not known findings."""
+    known = core.load_known()
+    return [f for f in res.oracle_failures if not core.match_known(ctx.prop, f["signature"], known)]
+
+
+SEARCH_BUDGET = float(os.environ.get("VERIF_C11_SEARCH_BUDGET", "360"))  # seconds of wall time
+
+
 def run(ctx):
     return _explore(ctx)
 
 
 def search(ctx, res):
+    """Failing-input search: thorough-tier families, oracles only; ends with the first failing input that is not a known
+    finding and never runs longer than SEARCH_BUDGET (+ the schedules in flight)."""
     ctx2 = core.Ctx(prop=ctx.prop, tier="thorough", seed=ctx.seed, scratch=ctx.scratch / "search")
     os.makedirs(ctx2.scratch, exist_ok=True)
-    return _explore(ctx2, scale=10)
+    return _explore(ctx2, scale=10, deadline=time.time() + SEARCH_BUDGET)
